@@ -26,7 +26,13 @@ class Cg:
         self.c = store.Concretiser(rnd, scales=(1, 1000, 43200000))      # the last: 12 h per tick, durations of several days
 
     def mk(self, lst, Event):
-        return [Event(id=(None if e.get("id", -1) == -1 else e["id"]), timestamp=self.c.dt(e["ts"]), duration=self.c.td(e["dur"]), data={k: copy.deepcopy(VALS[v]) for k, v in e["data"].items()}) for e in lst]
+        return [Event(id=(None if e.get("id", -1) == -1 else e["id"]), timestamp=self.c.dt(e["ts"]), duration=self.c.td(e["dur"]), data={k: copy.deepcopy(VALS[v]) for k, v in self.shuffled(e["data"])}) for e in lst]
+
+    def shuffled(self, d):
+        """the same keys and values, inserted into the event's dict in a random order"""
+        items = list(d.items())
+        self.c.rnd.shuffle(items)
+        return items
 
     def pdata(self, d, skip=()):
         out = {"_": "_"}
